@@ -92,8 +92,41 @@ fn check_snapshot(st: &State, floor: u64) -> Option<String> {
     None
 }
 
+/// Crash points and clock steps: rounds in which the wall clock stepped backwards between the sending of a probe
+/// and the arrival of its answer (`received < sent`: legal, `SystemTime` is not monotonic) are applied through the
+/// tracer's own handler; whatever happens inside — including a panic of the tracer thread, which does not poison
+/// the `parking_lot` lock — every later snapshot must still show a whole number of rounds.
+fn backstep_phase(run: &mut Run) {
+    let tracer = Builder::new(IpAddr::V4(Ipv4Addr::new(10, 0, 0, 98))).max_samples(MAX_SAMPLES).max_flows(MAX_FLOWS).build().expect("builder");
+    for k in 0..120u64 {
+        let mut probes = make_round(k);
+        if k % 7 == 3 {
+            let i = (k % u64::from(HOPS)) as usize;
+            if let ProbeStatus::Complete(c) = &mut probes[i] {
+                c.received = c.sent - Duration::from_millis(40);
+            }
+        }
+        let t = tracer.clone();
+        let r = crate::util::guarded(move || t.verif_apply_round(&Round::new(&probes, TimeToLive(HOPS), CompletionReason::TargetFound)));
+        let st = tracer.snapshot();
+        let n = st.round_count(FlowId(0));
+        let torn = st.hops().iter().find(|h| h.total_sent() != n || h.total_recv() != n || h.samples().len() != n.min(MAX_SAMPLES));
+        if let Some(h) = torn {
+            run.fail("c20-partial-round", format!("round {k} (answer of hop {} timestamped 40 ms before its probe): the snapshot after it shows round_count {n} but hop ttl {} has sent {} recv {} samples {}{}",
+                (k % u64::from(HOPS)) + 1, h.ttl(), h.total_sent(), h.total_recv(), h.samples().len(), if r.is_err() { " — the handler panicked while holding the write lock" } else { "" }));
+            return;
+        }
+        if st.hops().len() != usize::from(HOPS) && n > 0 {
+            run.fail("c20-partial-round", format!("round {k}: round_count {n} but {} hops", st.hops().len()));
+            return;
+        }
+        run.count("c20:backstep-rounds-checked");
+    }
+}
+
 pub fn run(rng: &mut Rng, thorough: bool, _corpus: &[String]) -> Run {
     let mut run = Run::new();
+    backstep_phase(&mut run);
     let rounds: u64 = if thorough { 400_000 } else { 40_000 };
     let tracer = Builder::new(IpAddr::V4(Ipv4Addr::new(10, 0, 0, 99))).max_samples(MAX_SAMPLES).max_flows(MAX_FLOWS).build().expect("builder");
     let stop = Arc::new(AtomicBool::new(false));
